@@ -2,6 +2,8 @@ package execsim
 
 import (
 	"fmt"
+	"reflect"
+	"regexp"
 	"strings"
 
 	jet "github.com/CloudyKit/jet/v6"
@@ -22,6 +24,8 @@ import (
 
 const probePath = "/zprobe.jet"
 
+var reTwin = regexp.MustCompile(`<twin:([^=|>]*)=([^=|>]*)\|([^=|>]*)=([^=|>]*)>`)
+
 // stateProbeSource prints everything a fresh runtime must not have.
 func stateProbeSource(w *gen.World) string {
 	var b strings.Builder
@@ -33,6 +37,8 @@ func stateProbeSource(w *gen.World) string {
 	}
 	b.WriteString("{{isset(e)}},{{isset(p0)}},{{isset(p1)}}>")
 	b.WriteString("<vars:{{s}}{{n}}{{item.Name}}>")
+	// two types of one shape: a field name resolves alike on both, whenever it is evaluated
+	b.WriteString("<twin:{{root.Col.Name}}={{root.Col2.Name}}|{{root.Col.Only}}={{root.Col2.Only}}>")
 	b.WriteString("<blocks:")
 	seen := map[string]bool{}
 	for _, bi := range w.Blocks {
@@ -146,6 +152,9 @@ func RunC10(env *sim.Env) {
 		if o.Probes.NFired > 1 {
 			env.Stat("probe:two_failures_in_one_execution", 1)
 		}
+		if m := reTwin.FindStringSubmatch(o.Out); m != nil && (m[1] != m[2] || m[3] != m[4]) {
+			env.Violate("alone-run-equality", "residue:same-shape-types-resolve-differently", "call %q: two struct types of one shape and one content render %s: what a field name resolves to depends on what the process had rendered before\nhistory: %s", call.String(), sim.Q(m[0]), strings.Join(hist[max(0, len(hist)-4):], " ; "))
+		}
 		if o.VarsChanged != "" {
 			env.Violate("inputs-untouched", "caller-varmap-changed", "call %q: Execute changed the VarMap the caller passed in (%s); a caller that keeps its VarMap gets another rendering from the next Execute with the same inputs.\nhistory: %s", call.String(), o.VarsChanged, strings.Join(hist[max(0, len(hist)-4):], " ; "))
 		}
@@ -174,6 +183,36 @@ func RunC10(env *sim.Env) {
 			call.String(), prev, want.Describe(), o.Describe(), firstDiff(Norm(want.Out)+"|err="+Norm(want.Err), Norm(o.Out)+"|err="+Norm(o.Err)))
 	}
 
+	// one history in six renders a value of each of 300 further struct types first (a process that has
+	// seen many types: caches with a capacity, tables that had to grow)
+	flood := t.Choose(6) == 5
+	doFlood := func() {
+		if !flood {
+			return
+		}
+		flood = false
+		var many []interface{}
+		for i := 0; i < 300; i++ {
+			typ := reflect.StructOf([]reflect.StructField{
+				{Name: "V", Type: reflect.TypeOf("")},
+				{Name: fmt.Sprintf("X%d", i), Type: reflect.TypeOf(0)},
+			})
+			v := reflect.New(typ).Elem()
+			v.Field(0).SetString("f")
+			many = append(many, v.Interface())
+		}
+		fl, _ := NewSet(map[string]string{"/zflood.jet": "{{range many}}{{.V}}{{end}}"})
+		if tm, err := fl.GetTemplate("/zflood.jet"); err == nil {
+			vm := jet.VarMap{}
+			vm.Set("many", many)
+			var sink strings.Builder
+			sim.Guard(func() { tm.Execute(&sink, vm, nil) })
+			pools.AbandonOutstanding()
+		}
+		hist = append(hist, "render-300-struct-types")
+		env.Event("flood 300 struct types")
+		env.Stat("probe:three_hundred_struct_types_rendered_first", 1)
+	}
 	// one run in four calls Execute without variables (what the templates need comes from Set globals)
 	nilVars := t.Choose(4) == 3
 	if nilVars {
@@ -236,6 +275,7 @@ func RunC10(env *sim.Env) {
 		env.Stat("counters:fault_points", int64(len(fps)))
 		// fault-free first (residue after successful executions)
 		exec(Call{Tmpl: m, Data: d, NilVars: nilVars})
+		doFlood()
 		for _, f := range fps {
 			for _, follow := range targets {
 				before := pools.RtReusedAfterFail
